@@ -69,7 +69,9 @@ Definition build_http_response (status : N) (version : bytes) (reason : option b
 Definition NOT_FOUND_RESPONSE_PKT (agent : bytes) : bytes :=
   build_http_response 404 (bs "HTTP/1.1") (Some (bs "NOT FOUND")) [(bs "Server", agent)] None true.
 
-(* chunk.py ChunkParser.to_chunks(raw, chunk_size) *)
+(* chunk.py ChunkParser.to_chunks(raw, chunk_size) for chunk_size > 0 (the only caller passes the
+   constant DEFAULT_BUFFER_SIZE; with 0 Python's range() raises ValueError, which this copy does not
+   model — Links/Builders.v reverse_to_chunks_eq / reverse_to_chunks_differ_zero relate it to Http/Chunk.v) *)
 Fixpoint to_chunks_aux (fuel : nat) (cs : N) (raw : bytes) : list bytes :=
   match fuel with
   | O => []
